@@ -22,6 +22,9 @@ RULE = (
     "check outcome(a op b) == outcome(b op a). Recording wrappers on logical_and/or/not/condition check every call the engines make. "
     "distinct_nontrivial = distinct programs containing at least one error or non-boolean leaf."
 )
+TECHNIQUE = (
+    "runtime monitoring: exhaustive small shapes + random nestings + program-reuse histories evaluated under both runners, three-valued truth-table oracle; logical growth monitor on error texts"
+)
 ASSUMPTIONS = [
     "commutativity is about the outcome class (true/false/error), not about which error message wins",
     "a non-boolean operand is asserted only where the statement decides (deciding boolean on the other side, or two non-booleans)",
